@@ -2,36 +2,36 @@ package rules
 
 func init() {
 	property(&Property{ID: "C02", Level: "other",
-		Rules:       []string{"R-STALE", "R-LOOKBACK", "R-SHARD", "R-ATOFFSET", "R-ITERERR", "R-ZEROSTEP", "R-SELKEY", "R-REFPORT-SELECT"},
-		Scope:       map[string][]string{"R-ITERERR": {"selectPoint "}, "R-STALE": {"selectPoint "}, "R-ZEROSTEP": {"vectorSelector"}},
+		Rules:       []string{"R-STALE", "R-LOOKBACK", "R-SHARD", "R-ATOFFSET", "R-ITERERR", "R-ZEROSTEP", "R-SELKEY", "R-REFPORT-SELECT", "R-CURSORRESET"},
+		Scope:       map[string][]string{"R-CURSORRESET": {"vectorSelector"}, "R-ITERERR": {"selectPoint "}, "R-STALE": {"selectPoint "}, "R-ZEROSTEP": {"vectorSelector"}},
 		Explanation: "Structural necessary conditions of instant-vector selection, decided for every path of the current source: no iterator sample reaches an emission without passing the staleness test; the per-query lookback delta reaches the plan; shard indices 0..n-1 are each instantiated once, n>=1, and merged by one coalesce; selector operators are built with the @-folded Offset while the select range uses Timestamp/OriginalOffset; a failing Seek is told apart from an exhausted iterator; step cursors cannot stall on instant queries.",
 		NotDecided: []string{
 			"not decided: the age comparison itself (lookback-1/lookback/lookback+1 ms), the arithmetic that folds @ into an offset, the slicing arithmetic of seriesShard and the re-basing sums of sample IDs (value-level)",
 		}})
 	property(&Property{ID: "C03", Level: "other",
-		Rules:       []string{"R-STALE", "R-TRUNCDIV", "R-KERNELBOUNDS", "R-SENTINEL", "R-ITERERR", "R-SLABCAP", "R-REFPORT-RANGE"},
-		Scope:       map[string][]string{"R-ITERERR": {"selectPoints"}, "R-STALE": {"selectPoints"}, "R-SENTINEL": {"matrixSelector"}},
+		Rules:       []string{"R-STALE", "R-TRUNCDIV", "R-KERNELBOUNDS", "R-SENTINEL", "R-ITERERR", "R-SLABCAP", "R-REFPORT-RANGE", "R-LABELPOS", "R-CURSORRESET"},
+		Scope:       map[string][]string{"R-CURSORRESET": {"matrixSelector"}, "R-ITERERR": {"selectPoints"}, "R-STALE": {"selectPoints"}, "R-SENTINEL": {"matrixSelector"}},
 		Explanation: "Structural necessary conditions of range-function evaluation: no stale sample enters a window (buffered and sought samples); per-second division uses the untruncated range; every window kernel guards its indexing for 0/1-sample windows (presence rule of irate/idelta/rate-like kernels >= 2 points); the matrix call site honours the 'no output' sentinel; iterator failures surface.",
 		NotDecided: []string{
 			"not decided: window maintenance across steps (previousPoints overlap reuse, ReduceDelta), inclusive/exclusive window edges and the numerical values of the kernels (value-level); a structural diff against the reference kernels was rejected because it fires on behaviour-preserving rewrites",
 		}})
 	property(&Property{ID: "C04", Level: "other",
-		Rules:       []string{"R-ACCRESET", "R-INTCONV", "R-SAMPLE0", "R-ONEPERSTEP", "R-PAIRING", "R-SORTEDNAMES", "R-TABLETS", "R-AGGNAME", "R-SHORTCUT", "R-ACCNONEMPTY", "R-ALLOCSIZE", "R-BATCHIDX", "R-VALIDEVERY", "R-REFPORT-AGG"},
-		Scope:       map[string][]string{"R-BATCHIDX": {"execution/aggregate"}, "R-PAIRING": {"execution/aggregate", "model.VectorPool"}, "R-SAMPLE0": {"execution/aggregate"}, "R-SHORTCUT": {"execution/aggregate"}, "R-SORTEDNAMES": {"execution/aggregate"}, "R-ONEPERSTEP": {"execution/aggregate"}},
+		Rules:       []string{"R-ACCRESET", "R-INTCONV", "R-SAMPLE0", "R-ONEPERSTEP", "R-PAIRING", "R-SORTEDNAMES", "R-TABLETS", "R-AGGNAME", "R-SHORTCUT", "R-ACCNONEMPTY", "R-ALLOCSIZE", "R-BATCHIDX", "R-VALIDEVERY", "R-REFPORT-AGG", "R-FILLRANGE", "R-COPYWRITE", "R-SCALAREND", "R-STEPEVERY"},
+		Scope:       map[string][]string{"R-STEPEVERY": {"execution/aggregate"}, "R-SCALAREND": {"ggregate"}, "R-COPYWRITE": {"execution/aggregate"}, "R-FILLRANGE": {"execution/aggregate"}, "R-BATCHIDX": {"execution/aggregate"}, "R-PAIRING": {"execution/aggregate", "model.VectorPool"}, "R-SAMPLE0": {"execution/aggregate"}, "R-SHORTCUT": {"execution/aggregate"}, "R-SORTEDNAMES": {"execution/aggregate"}, "R-ONEPERSTEP": {"execution/aggregate"}},
 		Explanation: "Structural necessary conditions of aggregation: every accumulator is completely reset per step (tables are reused for every batch); the k/quantile parameter is NaN/range-tested before it is used as an integer; a parameter absent at a step is not indexed; one step vector per step; IDs and values are written in pairs; the grouping names handed to the label hashes are the sorted slice.",
 		NotDecided: []string{
 			"not decided: the group keys/labels themselves, the reduction values, NaN ordering in min/max/topk, tie handling (value-level)",
 		}})
 	property(&Property{ID: "C05", Level: "other",
-		Rules:       []string{"R-BOOLNAME", "R-LABELBUILD", "R-SORTEDNAMES", "R-LABELFRESH", "R-DUPBOOK", "R-SHORTCUT", "R-BATCHIDX", "R-OPTABLE", "R-REFLABELS"},
-		Scope:       map[string][]string{"R-BATCHIDX": {"execution/binary"}, "R-SHORTCUT": {"execution/binary"}, "R-SORTEDNAMES": {"execution/binary"}},
+		Rules:       []string{"R-BOOLNAME", "R-LABELBUILD", "R-SORTEDNAMES", "R-LABELFRESH", "R-DUPBOOK", "R-SHORTCUT", "R-BATCHIDX", "R-OPTABLE", "R-REFLABELS", "R-COPYWRITE", "R-SCALAREND", "R-STEPEVERY"},
+		Scope:       map[string][]string{"R-STEPEVERY": {"execution/binary"}, "R-SCALAREND": {"scalarOperator"}, "R-COPYWRITE": {"execution/binary"}, "R-BATCHIDX": {"execution/binary"}, "R-SHORTCUT": {"execution/binary"}, "R-SORTEDNAMES": {"execution/binary"}},
 		Explanation: "Structural necessary conditions of binary operators: both operators decide about dropping the metric name from the operator type and the bool modifier; result label sets are never grown by raw appends; matching label names handed to the hashes are sorted; label sets are edited in place only on fresh copies (the operands may be the same pooled selector); the duplicate-match bookkeeping of a step is recorded for every matched sample before the comparison filter can skip it.",
 		NotDecided: []string{
 			"not decided: which pairs match, the values, error text and the step at which an ambiguous match is reported (value-level); an operator missing from the operation tables falls back correctly and is covered by C08",
 		}})
 	property(&Property{ID: "C06", Level: "other",
-		Rules:       []string{"R-SENTINEL", "R-POINTFIELDS", "R-PAIRING", "R-ZEROSTEP", "R-SAMPLE0", "R-STEPBOUND", "R-EMPTYSERIES", "R-POINT0", "R-TABLETS", "R-OUTALIAS", "R-HASHSAME", "R-PULLALL", "R-TRUNCDIV", "R-STEPTS", "R-BATCHIDX", "R-REFPORT-INSTANT", "R-OPTABLE"},
-		Scope:       map[string][]string{"R-BATCHIDX": {"execution/function", "execution/unary", "execution/binary.scalarOperator"}, "R-PAIRING": {"execution/function", "numberLiteralSelector", "step_invariant", "execution/unary", "model.VectorPool"}, "R-SAMPLE0": {"execution/function", "execution/binary.scalarOperator"}, "R-SENTINEL": {"functionOperator", "noArgFunctionOperator"}, "R-STEPTS": {"execution/function", "numberLiteralSelector", "step_invariant", "scalarOperator"}, "R-PULLALL": {"functionOperator", "unaryNegation", "stepInvariantOperator", "scalarOperator"}, "R-STEPBOUND": {"numberLiteralSelector", "noArgFunctionOperator", "stepInvariantOperator"}, "R-EMPTYSERIES": {"functionOperator", "noArgFunctionOperator", "numberLiteralSelector", "histogramOperator", "unaryNegation", "stepInvariantOperator", "scalarOperator"}, "R-ZEROSTEP": {"numberLiteralSelector", "noArgFunctionOperator", "stepInvariantOperator"}, "R-OPTABLE": {"operations["}},
+		Rules:       []string{"R-SENTINEL", "R-POINTFIELDS", "R-PAIRING", "R-ZEROSTEP", "R-SAMPLE0", "R-STEPBOUND", "R-EMPTYSERIES", "R-POINT0", "R-TABLETS", "R-OUTALIAS", "R-HASHSAME", "R-PULLALL", "R-TRUNCDIV", "R-STEPTS", "R-BATCHIDX", "R-REFPORT-INSTANT", "R-OPTABLE", "R-LABELPOS", "R-FILLRANGE", "R-PINNEDPLAN", "R-COPYWRITE", "R-SCALAREND", "R-STEPEVERY"},
+		Scope:       map[string][]string{"R-STEPEVERY": {"execution/function", "step_invariant", "scalarOperator", "numberLiteralSelector"}, "R-SCALAREND": {"scalarOperator"}, "R-COPYWRITE": {"execution/function", "execution/unary", "execution/step_invariant"}, "R-FILLRANGE": {"execution/function"}, "R-BATCHIDX": {"execution/function", "execution/unary", "execution/binary.scalarOperator"}, "R-PAIRING": {"execution/function", "numberLiteralSelector", "step_invariant", "execution/unary", "model.VectorPool"}, "R-SAMPLE0": {"execution/function", "execution/binary.scalarOperator"}, "R-SENTINEL": {"functionOperator", "noArgFunctionOperator"}, "R-STEPTS": {"execution/function", "numberLiteralSelector", "step_invariant", "scalarOperator"}, "R-PULLALL": {"functionOperator", "unaryNegation", "stepInvariantOperator", "scalarOperator"}, "R-STEPBOUND": {"numberLiteralSelector", "noArgFunctionOperator", "stepInvariantOperator"}, "R-EMPTYSERIES": {"functionOperator", "noArgFunctionOperator", "numberLiteralSelector", "histogramOperator", "unaryNegation", "stepInvariantOperator", "scalarOperator"}, "R-ZEROSTEP": {"numberLiteralSelector", "noArgFunctionOperator", "stepInvariantOperator"}, "R-OPTABLE": {"operations["}},
 		Explanation: "Structural necessary conditions of instant functions and scalars: the instant-function call site drops samples its kernel declares absent; every Point field a kernel reads is stored by the call site; IDs/values are written in pairs (time(), scalar()); generator operators cannot stall on a zero step and never emit past the window end; scalar operands are indexed only behind a length test.",
 		NotDecided: []string{
 			"not decided: function values, step alignment of scalar arguments that end early, replication of @-pinned vectors (value-level)",
@@ -50,13 +50,13 @@ func init() {
 			"not decided: that the rewrites preserve semantics (filter evaluation on absent labels, repeated label names, matcher union). Three defects of that kind exist on the pinned tree and are reported in DESIGN.md; no exact shape rule for them was found",
 		}})
 	property(&Property{ID: "C10", Level: "other",
-		Rules:       []string{"R-SLOTPTR", "R-DISTTABLE", "R-REMOTELOOKBACK", "R-SHARD", "R-PUSHDOWN", "R-NODECOPY", "R-EXPRORIGIN", "R-CORECOUNT"},
+		Rules:       []string{"R-SLOTPTR", "R-DISTTABLE", "R-REMOTELOOKBACK", "R-SHARD", "R-PUSHDOWN", "R-NODECOPY", "R-EXPRORIGIN", "R-CORECOUNT", "R-ONEBATCHSIZE"},
 		Explanation: "Structural necessary conditions of distributed execution: push-down rewrites land in the tree in every position; only algebraically distributive aggregations are pushed, count is re-aggregated with sum; remote results are read by exact timestamp (no second lookback); the remote reader is a single complete shard; the bottom-up traversal stops (returns true) for every node kind other than the distributive ones it recurses into, so nothing else is pushed down whole.",
 		NotDecided: []string{
 			"not decided: that no selector is left outside a remote execution for every tree shape; commutation with the union for all data (value-level)",
 		}})
 	property(&Property{ID: "C11", Level: "other",
-		Rules:       []string{"R-SHARD", "R-LINEAR", "R-GOSHARED", "R-SHARDCOPY", "R-SLABCAP", "R-PUTORDER", "R-CORECOUNT", "R-POOLLINEAR"},
+		Rules:       []string{"R-SHARD", "R-LINEAR", "R-GOSHARED", "R-SHARDCOPY", "R-SLABCAP", "R-PUTORDER", "R-CORECOUNT", "R-POOLLINEAR", "R-CURSORRESET"},
 		Explanation: "Structural necessary conditions of determinism: no shard is lost or duplicated for any shard count; no operator is consumed by two parents; every variable shared with a goroutine is written index-privately, under a mutex that covers all its accesses, or before a channel/WaitGroup hand-off; shard slices handed to operators are private copies of the shared series list.",
 		NotDecided: []string{
 			"not decided: slicing arithmetic, arrival-order dependent tie-breaking, float summation order, NaN ordering (value-/schedule-level)",
@@ -68,25 +68,25 @@ func init() {
 			"not decided: race freedom inside dependencies and the storage; aliasing the rules do not model",
 		}})
 	property(&Property{ID: "C13", Level: "other",
-		Rules:       []string{"R-PANICDOMAIN", "R-WRAP", "R-RECOVERTOTAL", "R-INITBEFOREUSE", "R-INTCONV", "R-SAMPLE0", "R-KERNELBOUNDS", "R-DEFERORDER", "R-POINT0", "R-ACCNONEMPTY", "R-ALLOCSIZE", "R-QUERYCLOSE", "R-BATCHIDX"},
+		Rules:       []string{"R-PANICDOMAIN", "R-WRAP", "R-RECOVERTOTAL", "R-INITBEFOREUSE", "R-INTCONV", "R-SAMPLE0", "R-KERNELBOUNDS", "R-DEFERORDER", "R-POINT0", "R-ACCNONEMPTY", "R-ALLOCSIZE", "R-QUERYCLOSE", "R-BATCHIDX", "R-LOCKDEFER"},
 		Explanation: "Structural necessary conditions of crash containment: the API entry and every goroutine that can reach a user-supplied callback is a recovered panic domain; every recovered value is reported; the recovering defer runs before the defer that closes the channel it reports on; no operator state is used before its once-guarded initialiser; run-time floats are tested before integer conversion; scalar operands and windows are indexed behind length tests.",
 		NotDecided: []string{
 			"not decided: fatal runtime errors recover cannot catch (concurrent map writes, stack exhaustion), out-of-memory; panics on worker goroutines caused by defects inside the aggregation tables themselves (no user callback is reachable there)",
 		}})
 	property(&Property{ID: "C14", Level: "other",
-		Rules:       []string{"R-LOSTCANCEL", "R-APIFIELDSYNC", "R-ZEROSTEP", "R-CANCELEARLY", "R-CHANCAP", "R-WORKERCLOSE", "R-CTXDERIVED", "R-QUERYCLOSE"},
+		Rules:       []string{"R-LOSTCANCEL", "R-APIFIELDSYNC", "R-ZEROSTEP", "R-CANCELEARLY", "R-CHANCAP", "R-WORKERCLOSE", "R-CTXDERIVED", "R-QUERYCLOSE", "R-LOCKDEFER", "R-CANCELLOCK"},
 		Explanation: "Structural necessary conditions of cancellation: the per-execution context is cancelled on every return; the cancel function is published to Cancel/Close (under the mutex) before Exec makes its first call into the plan; step cursors terminate on instant queries; every error channel a goroutine sends on without a select has capacity for all its senders, so a sender never blocks after its receiver returned early.",
 		NotDecided: []string{
 			"not decided: 'within bounded time'; storage callbacks that ignore the context; that the context's error rather than a value is returned on the last batch; full deadlock freedom of the worker protocol (R-CHAN of the design was withdrawn, see DESIGN.md)",
 		}})
 	property(&Property{ID: "C15", Level: "other",
-		Rules:       []string{"R-ITERERR", "R-SETERR", "R-ERRPROP", "R-ERRSEND", "R-ERRFIRST"},
+		Rules:       []string{"R-ITERERR", "R-SETERR", "R-ERRPROP", "R-ERRSEND", "R-ERRFIRST", "R-ERRIDENT"},
 		Explanation: "Structural necessary conditions of error surfacing: a failing iterator/series set is distinguished from an exhausted one at every advance site; an error assigned inside a once/closure is assigned to the variable the enclosing function returns (no shadowing declaration); every error returned by a child operator or helper in execution/... is tested and returned before the other results are used.",
 		NotDecided: []string{
 			"not decided: wrapping fidelity of the final error; the once-guarded loaders do not latch their error (no plan was found in which that yields a successful result)",
 		}})
 	property(&Property{ID: "C16", Level: "other",
-		Rules:       []string{"R-HINTXFER", "R-HINTRANGE", "R-SELKEY", "R-NODECOPY", "R-MEMOKEY"},
+		Rules:       []string{"R-HINTXFER", "R-HINTRANGE", "R-SELKEY", "R-NODECOPY", "R-MEMOKEY", "R-REFPORT-HINTS"},
 		Explanation: "Structural necessary conditions of select hints: per node kind the Func/Grouping/By hints are transferred to the children exactly as the reference derives them from the path (shape of the pinned extractFuncFromPath/extractGroupsFromPath re-read on every run); the querier range and hinted range are the same values from one range computation; the select-cache key covers every select parameter that can differ between two selects (range start and end, step, function, grouping, by).",
 		NotDecided: []string{
 			"not decided: the start/end arithmetic; sufficiency of the range under optimizer rewrites (value-level); the order of grouping labels in the hint (sorted in place by the aggregation operators, reported in DESIGN.md)",
@@ -98,13 +98,13 @@ func init() {
 			"not decided: sort.Sort on uncopied (already sorted) storage labels performs no writes - assumed; closing of remote queries that are created but never executed",
 		}})
 	property(&Property{ID: "C18", Level: "other",
-		Rules:       []string{"R-INITBEFOREUSE", "R-PAIRING", "R-ONEPERSTEP", "R-STALE", "R-LINEAR", "R-STEPBOUND", "R-SHARDCOPY", "R-TSTAMP", "R-EMPTYSERIES", "R-TABLETS", "R-OUTALIAS", "R-PULLALL", "R-PUTORDER", "R-ENDSTICKY", "R-STEPTS"},
+		Rules:       []string{"R-INITBEFOREUSE", "R-PAIRING", "R-ONEPERSTEP", "R-STALE", "R-LINEAR", "R-STEPBOUND", "R-SHARDCOPY", "R-TSTAMP", "R-EMPTYSERIES", "R-TABLETS", "R-OUTALIAS", "R-PULLALL", "R-PUTORDER", "R-ENDSTICKY", "R-STEPTS", "R-ONEBATCHSIZE", "R-CURSORRESET", "R-STEPEVERY"},
 		Explanation: "Structural necessary conditions of the stream contract: operators serve batches whether or not Series was called first; IDs and values are written in pairs; one step vector per step; no staleness marker is emitted; one consumer per operator; generator loops are bounded by the window end; shards renumber private copies; a step vector's timestamp comes from the step grid, not from sample data.",
 		NotDecided: []string{
 			"not decided: uniqueness and range of sample IDs, monotone step order, 'ended stays ended' (value-level)",
 		}})
 	property(&Property{ID: "C19", Level: "other",
-		Rules:       []string{"R-LABELBUILD", "R-RESULTSHAPE", "R-STALE", "R-TSTAMP", "R-LABELFRESH", "R-HASHSAME", "R-EXPRORIGIN", "R-STEPTS"},
+		Rules:       []string{"R-LABELBUILD", "R-RESULTSHAPE", "R-STALE", "R-TSTAMP", "R-LABELFRESH", "R-HASHSAME", "R-EXPRORIGIN", "R-STEPTS", "R-LABELPOS"},
 		Explanation: "Structural necessary conditions of result well-formedness: label sets are not grown by raw appends; the matrix is sorted, empty series pruned, instant samples stamped with the evaluation time; no staleness marker is emitted; kernels stamp their result with the step time; label sets shared through the selector pool are not edited in place.",
 		NotDecided: []string{
 			"not decided: pairwise distinct label sets after name dropping, timestamps on the grid for every operator, overflow/denormal values (value-level)",
